@@ -38,7 +38,7 @@ theorem selectVersion_optimal (cmin cmax bmin bmax : Int)
     selectVersion cmin cmax bmin bmax = min cmax bmax ∧
     bmin ≤ selectVersion cmin cmax bmin bmax ∧ selectVersion cmin cmax bmin bmax ≤ bmax ∧
     cmin ≤ selectVersion cmin cmax bmin bmax ∧ selectVersion cmin cmax bmin bmax ≤ cmax := by
-  simp only [selectVersion]
+  simp only [selectVersion, KV.Gen.Routing.selectVersionSrc]
   (repeat' split) <;> omega
 
 example : selectVersion 1 5 0 3 = 3 ∧ (1:Int) ≤ 3 ∧ (0:Int) ≤ 5 := by decide
@@ -54,7 +54,7 @@ theorem selectVersion_highest (cmin cmax bmin bmax v : Int)
 /-- The monitor of Spec/Routing agrees: the model's choice always satisfies the version clause. -/
 theorem selectVersion_versionOK (cmin cmax bmin bmax : Int) (_hc : cmin ≤ cmax) (hb : bmin ≤ bmax) :
     versionOK cmin cmax bmin bmax (selectVersion cmin cmax bmin bmax) = true := by
-  unfold versionOK overlap bestVersion selectVersion
+  unfold versionOK overlap bestVersion selectVersion KV.Gen.Routing.selectVersionSrc
   by_cases h1 : cmin ≤ bmax <;> by_cases h2 : bmin ≤ cmax <;> simp [h1, h2] <;>
     (repeat' split) <;> (try simp) <;> omega
 
@@ -63,7 +63,7 @@ theorem selectVersion_versionOK (cmin cmax bmin bmax : Int) (_hc : cmin ≤ cmax
 theorem selectVersion_disjoint (cmin cmax bmin bmax : Int) (hc : cmin ≤ cmax) (hb : bmin ≤ bmax) :
     (bmax < cmin → selectVersion cmin cmax bmin bmax = cmin) ∧
     (cmax < bmin → selectVersion cmin cmax bmin bmax = cmax) := by
-  unfold selectVersion
+  unfold selectVersion KV.Gen.Routing.selectVersionSrc
   constructor <;> intro h <;> (repeat' split) <;> omega
 
 /-- Through the connection's version map: if the ApiVersions answer lists `key` exactly once with range
